@@ -116,13 +116,20 @@ func withClosures(fn *ssa.Function) []*ssa.Function {
 
 // modFuncs returns every function (incl. literals and generic instances) whose
 // source lives in the module, sorted by position; test files are not loaded.
-func (r *R) modFuncs() []*ssa.Function {
+func (r *R) modFuncs() []*ssa.Function { return r.modFuncsOpt(false) }
+
+// modFuncsAll also lists helpers that are new with respect to the reference
+// tree as units of their own (for rules that follow values, which do not carry
+// over a call boundary by themselves).
+func (r *R) modFuncsAll() []*ssa.Function { return r.modFuncsOpt(true) }
+
+func (r *R) modFuncsOpt(withNew bool) []*ssa.Function {
 	var out []*ssa.Function
 	for f := range r.AllFuncs {
 		if len(f.Blocks) == 0 || f.Synthetic != "" && f.Parent() == nil && !strings.HasPrefix(f.Synthetic, "package initializer") {
 			continue // wrappers and bound-method thunks have no source of their own
 		}
-		if inModule(f) && !isNewHelperOrInside(f) {
+		if inModule(f) && (withNew || !isNewHelperOrInside(f)) {
 			out = append(out, f)
 		}
 	}
@@ -253,6 +260,35 @@ func eachInstrDeep(fn *ssa.Function, f func(ins ssa.Instruction), seen map[*ssa.
 			f(ins)
 			if !haveReference || depth > 3 {
 				continue
+			}
+			if c, ok := ins.(*ssa.Call); ok {
+				if g := staticCallee(c.Common()); g != nil && isNewHelper(g) && !seen[g] {
+					// walk the helper here, with its parameters standing for this call's arguments
+					sub := map[*ssa.Parameter]string{}
+					for i, a := range c.Common().Args {
+						if i < len(g.Params) {
+							sub[g.Params[i]] = describe(a)
+						}
+					}
+					vsub := map[*ssa.Parameter]ssa.Value{}
+					for i, a := range c.Common().Args {
+						if i < len(g.Params) {
+							vsub[g.Params[i]] = a
+						}
+					}
+					paramSubstStack = append(paramSubstStack, sub)
+					paramValueStack = append(paramValueStack, vsub)
+					callSiteStack = append(callSiteStack, ins)
+					seen[g] = true
+					for _, h := range withClosures(g) {
+						eachInstrDeep(h, f, seen, depth+1)
+					}
+					delete(seen, g)
+					paramSubstStack = paramSubstStack[:len(paramSubstStack)-1]
+					paramValueStack = paramValueStack[:len(paramValueStack)-1]
+					callSiteStack = callSiteStack[:len(callSiteStack)-1]
+					continue
+				}
 			}
 			for _, op := range ins.Operands(nil) {
 				var g *ssa.Function
@@ -635,6 +671,14 @@ func describeN(v ssa.Value, depth int, onpath map[ssa.Value]bool) string {
 func describeShallow(v ssa.Value, d func(ssa.Value) string) string {
 	switch x := v.(type) {
 	case *ssa.Parameter:
+		for k := len(paramSubstStack) - 1; k >= 0; k-- {
+			if t, ok := paramSubstStack[k][x]; ok {
+				return t // a helper scanned at one of its call sites: the argument it was given
+			}
+		}
+		if t, ok := paramAlias[x]; ok {
+			return t // a method used as a method value, read like the function literal it replaces
+		}
 		for i, p := range x.Parent().Params {
 			if p == x {
 				return fmt.Sprintf("$%d", i)
@@ -663,8 +707,14 @@ func describeShallow(v ssa.Value, d func(ssa.Value) string) string {
 	case *ssa.Builtin:
 		return "builtin:" + x.Name()
 	case *ssa.FieldAddr:
+		if t, ok := boundFieldTerm(x.X, x.Field); ok {
+			return t
+		}
 		return d(x.X) + "." + fieldName(x.X.Type(), x.Field)
 	case *ssa.Field:
+		if t, ok := boundFieldTerm(x.X, x.Field); ok {
+			return t
+		}
 		return d(x.X) + "." + fieldName(x.X.Type(), x.Field)
 	case *ssa.UnOp:
 		switch x.Op {
@@ -883,6 +933,10 @@ func backward(v ssa.Value, visit func(ssa.Value) bool) bool {
 			return true
 		}
 		switch x := v.(type) {
+		case *ssa.Parameter:
+			if a, ok := resolveParam(x); ok {
+				return walk(a)
+			}
 		case *ssa.Phi:
 			for _, e := range x.Edges {
 				if walk(e) {
@@ -1109,4 +1163,208 @@ func describePointee(v ssa.Value) string {
 		}
 	}
 	return describe(v)
+}
+
+// resolveParam: while a new helper is walked at one of its call sites, the argument a parameter stands for.
+func resolveParam(p *ssa.Parameter) (ssa.Value, bool) {
+	for k := len(paramValueStack) - 1; k >= 0; k-- {
+		if v, ok := paramValueStack[k][p]; ok {
+			return v, true
+		}
+	}
+	return nil, false
+}
+
+// siteOf: the instruction of the function being scanned that stands for ins - ins itself, or, while a new
+// helper is walked in place, the outermost call that led into it.
+func siteOf(ins ssa.Instruction) ssa.Instruction {
+	if len(callSiteStack) > 0 {
+		return callSiteStack[0]
+	}
+	return ins
+}
+
+// guardsAt: the branch conditions that hold at ins, including those that hold at the call sites through
+// which a new helper containing ins is being walked.
+func guardsAt(ins ssa.Instruction) []string {
+	var out []string
+	for _, cs := range callSiteStack {
+		out = append(out, guardStrings(cs.Block())...)
+	}
+	return append(out, guardStrings(ins.Block())...)
+}
+
+// holdsAmong reports whether cond (any spelling) is among the given conditions.
+func holdsAmong(conds []string, cond string) bool {
+	ck, cp := normCond(cond)
+	for _, g := range conds {
+		if gk, gp := normCond(g); gk == ck && gp == cp {
+			return true
+		}
+	}
+	return false
+}
+
+var (
+	callSiteStack   []ssa.Instruction
+	paramValueStack []map[*ssa.Parameter]ssa.Value
+	paramSubstStack []map[*ssa.Parameter]string
+	paramAlias      = map[*ssa.Parameter]string{}
+	boundSite       = map[*ssa.Function]*ssa.MakeClosure{} // new method used as a method value -> where it is bound
+)
+
+// anonFuncs returns the function literals of fn, also those that moved into a
+// helper extracted from fn, and the new methods/functions fn uses as function
+// values (a literal turned into a method value). A bound method is presented
+// like the literal it replaces: its receiver reads as the captured variable ^0
+// and its remaining parameters as $0, $1, ...
+func anonFuncs(fn *ssa.Function) []*ssa.Function {
+	out := append([]*ssa.Function{}, fn.AnonFuncs...)
+	if !haveReference {
+		return out
+	}
+	seen := map[*ssa.Function]bool{}
+	for _, b := range fn.Blocks {
+		for _, ins := range b.Instrs {
+			if c, ok := ins.(*ssa.Call); ok {
+				if g := staticCallee(c.Common()); g != nil && isNewHelper(g) && !seen[g] {
+					seen[g] = true
+					out = append(out, anonFuncs(g)...)
+				}
+			}
+			for _, op := range ins.Operands(nil) {
+				switch v := (*op).(type) {
+				case *ssa.MakeClosure:
+					w, _ := v.Fn.(*ssa.Function)
+					if w == nil || w.Synthetic == "" {
+						continue
+					}
+					m := boundTarget(w)
+					if m == nil || !isNewHelper(m) || seen[m] || len(v.Bindings) != 1 {
+						continue
+					}
+					seen[m] = true
+					boundSite[m] = v
+					for i, p := range m.Params {
+						if i == 0 {
+							paramAlias[p] = "^0"
+						} else {
+							paramAlias[p] = fmt.Sprintf("$%d", i-1)
+						}
+					}
+					out = append(out, m)
+				case *ssa.Function:
+					if isNewHelper(v) && !seen[v] {
+						if _, isCall := ins.(ssa.CallInstruction); isCall && staticCallee(ins.(ssa.CallInstruction).Common()) == v {
+							continue // called, not used as a value
+						}
+						seen[v] = true
+						out = append(out, v)
+					}
+				}
+			}
+		}
+	}
+	return out
+}
+
+// litParams: the parameters of a literal; for a bound method, without the receiver.
+func litParams(f *ssa.Function) []*ssa.Parameter {
+	if _, ok := boundSite[f]; ok && len(f.Params) > 0 {
+		return f.Params[1:]
+	}
+	return f.Params
+}
+
+// boundFieldTerm: base is the receiver of a new method that is only used as a
+// method value on a struct built right there (a function literal turned into a
+// method of a small carrier struct). The field then stands for the value the
+// literal would have captured: the one stored into that field where the
+// carrier is built, described in the building function's terms.
+func boundFieldTerm(base ssa.Value, field int) (string, bool) {
+	if len(boundSite) == 0 {
+		return "", false
+	}
+	var recv *ssa.Parameter
+	switch b := base.(type) {
+	case *ssa.Parameter:
+		recv = b
+	case *ssa.Alloc: // a value receiver spilled into a local
+		if p, ok := wholeStore(b).(*ssa.Parameter); ok {
+			recv = p
+		}
+	case *ssa.UnOp:
+		if a, ok := b.X.(*ssa.Alloc); ok {
+			if p, ok := wholeStore(a).(*ssa.Parameter); ok {
+				recv = p
+			}
+		}
+	}
+	if recv == nil || len(recv.Parent().Params) == 0 || recv.Parent().Params[0] != recv {
+		return "", false
+	}
+	mc, ok := boundSite[recv.Parent()]
+	if !ok {
+		return "", false
+	}
+	// the carrier: the bound receiver is (a load of) a local struct
+	var carrier *ssa.Alloc
+	switch v := mc.Bindings[0].(type) {
+	case *ssa.Alloc:
+		carrier = v
+	case *ssa.UnOp:
+		carrier, _ = v.X.(*ssa.Alloc)
+	}
+	// `rh := T{...}`: the literal is built in a temporary and copied into the variable
+	for i := 0; carrier != nil && i < 3; i++ {
+		u, ok := wholeStore(carrier).(*ssa.UnOp)
+		if !ok {
+			break
+		}
+		a, ok := u.X.(*ssa.Alloc)
+		if !ok {
+			break
+		}
+		carrier = a
+	}
+	if carrier == nil || carrier.Referrers() == nil {
+		return "", false
+	}
+	var val ssa.Value
+	n := 0
+	for _, ref := range *carrier.Referrers() {
+		fa, ok := ref.(*ssa.FieldAddr)
+		if !ok || fa.Field != field || fa.Referrers() == nil {
+			continue
+		}
+		for _, rr := range *fa.Referrers() {
+			if st, ok := rr.(*ssa.Store); ok && st.Addr == fa {
+				val = st.Val
+				n++
+			}
+		}
+	}
+	if n != 1 {
+		return "", false
+	}
+	return describe(val), true
+}
+
+// wholeStore: the only value stored into the local as a whole (stores through field addresses do not count).
+func wholeStore(a *ssa.Alloc) ssa.Value {
+	var val ssa.Value
+	n := 0
+	if a.Referrers() == nil {
+		return nil
+	}
+	for _, ref := range *a.Referrers() {
+		if st, ok := ref.(*ssa.Store); ok && st.Addr == ssa.Value(a) {
+			val = st.Val
+			n++
+		}
+	}
+	if n == 1 {
+		return val
+	}
+	return nil
 }
